@@ -25,7 +25,10 @@ PROP = dict(
                "reported twice and at most one collection (alive or dead) is in progress, by induction "
                "over arbitrary such histories; tied by the same suite with the failures injected at the file "
                "operations of the real code and the real exception propagation.",
-    level_note="Trusted: Lean kernel (+propext, Classical.choice, Quot.sound), tools/extract.py, the results "
+    level_note="System level (suite `system`, plain/busy modes): the oracle `reported.not_once` checks on real multi-process runs that every "
+               "recorded result is passed to exactly one update_job_status call; the accumulation of newly_completed over the passes of a "
+               "round is generated from the source (Gen/Round) and matched by the model lemma passEnd_newly_grows. "
+               "Trusted: Lean kernel (+propext, Classical.choice, Quot.sound), tools/extract.py, the results "
                "correspondence suite (cooperative marker-file lock, baton scheduler, fake clock). Outside the model: "
                "atomicity of a small buffered write on the real filesystem; SoftFileLock mutual exclusion and stale-"
                "marker breaking on a distributed filesystem (the model breaks exactly the markers of dead processes); torn "
